@@ -73,12 +73,15 @@ def _real_connect():
     return _SERVER["real_connect"]
 
 
+NET_TIMEOUT = {"s": 1}     # 1 s keeps HTTP-500 cases cheap (the connector retries 5xx until the timeout); raised for a re-run after a client timeout
+
+
 def _http_conn(db_path=":isolated:", database="DB1", schema="S1"):
     sp = {"CLIENT_OUT_OF_BAND_TELEMETRY_ENABLED": False}
     if db_path:
         sp["FAKESNOW_DB_PATH"] = db_path
     return _real_connect()(user="fake", password="snow", account="fakesnow", host="localhost", port=_server_port(),
-                           protocol="http", session_parameters=sp, network_timeout=1, database=database, schema=schema)
+                           protocol="http", session_parameters=sp, network_timeout=NET_TIMEOUT["s"], database=database, schema=schema)
 
 
 # ------------------------------------------------------------------------------------------------
@@ -262,6 +265,23 @@ def _gen_history(rnd, hid: int, force_types=None) -> list[tuple[str, str]]:
     mid.append(("select-lit", "select 1, 1.5, 'a', true, 1::number(10,0), 1.5::number(10,1), 2.5::float, to_date('2020-01-01')"))
     rnd.shuffle(mid)
     st += mid[: rnd.randint(10, 22)]
+    # explicit transactions with a FAILING statement in the middle: the failure must not end (or commit) the transaction
+    fq = f"DB1.S1.{t}"
+    for end in rnd.sample(["commit", "rollback"], 2)[: rnd.choice([0, 1, 1, 2])]:
+        base = 100 * (1 + len([1 for k, _ in st if k == "tx-begin"]))
+        fails = [("tx-fail-table", "select * from nope_in_tx"), ("tx-fail-column", f"select nope from {fq}"), ("tx-fail-arity", f"insert into {fq} values (1)"),
+                 ("tx-fail-exists", f"create table {fq} (id int)")]
+        st.append(("tx-reset", "rollback"))            # leave whatever transaction the random statements above opened
+        st.append(("tx-begin", "begin"))
+        st.append(("tx-insert", f"insert into {fq} (id) values ({base + 1}), ({base + 2})"))
+        st.append(rnd.choice(fails))
+        st.append(("tx-insert", f"insert into {fq} (id) values ({base + 3})"))
+        if rnd.random() < 0.5:
+            st.append(rnd.choice(fails))
+            st.append(("tx-delete", f"delete from {fq} where id = {base + 1}"))
+        st.append(("tx-select", f"select id from {fq} where id > 99 order by id"))
+        st.append(("tx-end-" + end, end))
+        st.append(("tx-select", f"select id from {fq} where id > 99 order by id"))
     st.append(("select", f"select * from DB1.S1.{t} order by id"))
     if rnd.random() < 0.35:
         kind, sql = rnd.choice(ENDERS)
@@ -302,8 +322,8 @@ def _worker_b(shard):
     import fakesnow
     import snowflake.connector
     _real_connect()
-    out = []
-    for hid, hist in shard:
+
+    def run_hist(hist):
         http = _http_conn()
         res = []
         with fakesnow.patch():
@@ -316,6 +336,23 @@ def _worker_b(shard):
             http.close()
         except Exception:
             pass
+        return res
+
+    out = []
+    for hid, hist in shard:
+        try:
+            res = run_hist(hist)
+        except Exception as e:        # the login itself timed out
+            if type(e).__name__ != "OperationalError":
+                raise
+            res = [({"k": "X", "cls": "OperationalError"}, {"k": "X", "cls": "-"})]
+        if any(a.get("cls") == "OperationalError" for a, _ in res):
+            # a client-side network timeout on the loaded machine (not an answer of the server): run the history again, patiently
+            NET_TIMEOUT["s"] = 20
+            try:
+                res = run_hist(hist)
+            finally:
+                NET_TIMEOUT["s"] = 1
         out.append(res)
     return out
 
@@ -456,6 +493,8 @@ def _run_b(chk, rnd, nhist: int):
     ty_replies = {t: r for t, r in zip(ty_list, replies[len(lines):])}
     ended = set()
     for (hid, hist, si, kind, sql, a, b), reply in zip(all_obs, replies):
+        if a.get("cls") == "OperationalError":
+            raise common.Infra(f"connector network timeout persisted on `{sql[:80]}` (machine overloaded?)")
         if hid in ended:
             continue
         case = {"part": "B", "history": [s for _, s in hist[: si + 1]], "kinds": [k for k, _ in hist[: si + 1]]}
@@ -760,6 +799,21 @@ def _gen_session_history(rnd, hid: int) -> list:
             who = "raw:" + rnd.choice(live)
         else:
             who = rnd.choice(live)
+        if who in live and rnd.random() < 0.2:
+            # a contiguous transaction block of one session (no other session acts in between: DuckDB's snapshot point and
+            # catalog conflicts are not modelled), with a failing statement in the middle
+            reqs.append(("Q", who, "all"))
+            reqs.append(("Q", who, "begin"))
+            for _ in range(rnd.randint(1, 4)):
+                k2 = rnd.choice(["put", "fail", "all", "put", "fail"])
+                if k2 == "put":
+                    v += 1
+                    reqs.append(("Q", who, f"put,{v}"))
+                else:
+                    reqs.append(("Q", who, k2))
+            reqs.append(("Q", who, rnd.choice(["commit", "rollback"])))
+            reqs.append(("Q", rnd.choice(live), "all"))
+            continue
         kind = rnd.choice(["sv", "gv", "us", "cs", "put", "all", "put", "all"])
         if kind == "sv":
             v += 1
@@ -802,6 +856,10 @@ def _sql_of(q: str, hid: int, seq: int) -> list[str]:
         return ["create schema if not exists SHARED_DB.PUB", f"create table if not exists {tbl} (seq int, v int)", f"insert into {tbl} values ({seq}, {p[1]})"]
     if p[0] == "all":
         return ["create schema if not exists SHARED_DB.PUB", f"create table if not exists {tbl} (seq int, v int)", f"select v from {tbl} order by seq"]
+    if p[0] in ("begin", "commit", "rollback"):
+        return [p[0]]
+    if p[0] == "fail":
+        return ["select * from SHARED_DB.PUB.NOPE_C17"]
     raise AssertionError(q)
 
 
@@ -809,8 +867,9 @@ def _worker_c(shard):
     import snowflake.connector.errors as E
     port = _server_port()
     out = []
-    for hid, reqs in shard:
-        import fakesnow.server
+    import fakesnow.server
+
+    def run_hist(hid, reqs, attempt):
         conns, tokens, resp, tmpdirs = {}, {}, [], []
         seq = 0
         before_sessions = len(fakesnow.server.sessions)
@@ -831,7 +890,7 @@ def _worker_c(shard):
                 continue
             _, who, q = r
             seq += 1
-            sqls = _sql_of(q, f"{os.getpid()}_{hid}", seq)
+            sqls = _sql_of(q, f"{os.getpid()}_{hid}_{attempt}", seq)
             if who in conns:
                 try:
                     cur = conns[who].cursor()
@@ -839,7 +898,7 @@ def _worker_c(shard):
                         cur.execute(s)
                     rows = cur.fetchall()
                     p0 = q.split(",")[0]
-                    if p0 in ("sv", "us", "put"):
+                    if p0 in ("sv", "us", "put", "begin", "commit", "rollback"):
                         resp.append("S")
                     elif p0 == "gv":
                         resp.append(f"V:{rows[0][0]}")
@@ -848,7 +907,7 @@ def _worker_c(shard):
                     else:
                         resp.append("R:" + ",".join(str(x[0]) for x in rows))
                 except E.ProgrammingError as e:
-                    resp.append("V:-" if q.startswith("gv") and "does not exist" in str(e.msg) else f"ERR:{e.errno}:{str(e.msg)[:80]}")
+                    resp.append("V:-" if q.startswith("gv") and "does not exist" in str(e.msg) else ("E" if q == "fail" and e.errno == 2003 else f"ERR:{e.errno}:{str(e.msg)[:80]}"))
                 except Exception as e:
                     resp.append(f"EXC:{type(e).__name__}:{str(e)[:80]}")
                 continue
@@ -890,7 +949,22 @@ def _worker_c(shard):
         for d in tmpdirs:
             import shutil
             shutil.rmtree(d, ignore_errors=True)
-        out.append({"resp": resp, "tokens": {k: len(v) for k, v in tokens.items()}, "distinct_tokens": len(set(tokens.values())), "new_sessions": nsess})
+        return {"resp": resp, "tokens": {k: len(v) for k, v in tokens.items()}, "distinct_tokens": len(set(tokens.values())), "new_sessions": nsess}
+
+    for hid, reqs in shard:
+        try:
+            r = run_hist(hid, reqs, 0)
+        except Exception as e:        # a login timed out
+            if type(e).__name__ != "OperationalError":
+                raise
+            r = {"resp": ["EXC:OperationalError"]}
+        if any("OperationalError" in x or "timed out" in x for x in r["resp"]):
+            NET_TIMEOUT["s"] = 20        # client-side timeout on the loaded machine: run the sequence again, patiently
+            try:
+                r = run_hist(hid, reqs, 1)
+            finally:
+                NET_TIMEOUT["s"] = 1
+        out.append(r)
     return out
 
 
@@ -960,6 +1034,8 @@ def _run_c(chk, rnd, nhist: int):
                      sample={"requests": [list(r) for r in reqs[:10]], "responses": got[:10]} if hid == 0 else None)
             for r in reqs:
                 chk.count("req:" + ("login:" + r[2] if r[0] == "L" else ("query:" + (r[1].split(":")[0] if ":" in r[1] or r[1] in ("none", "empty") else "session"))))
+            if any("OperationalError" in x for x in got):
+                raise common.Infra("connector network timeout persisted in a session sequence (machine overloaded?)")
             if got != model:
                 j = next(k for k in range(len(got)) if k >= len(model) or got[k] != model[k])
                 chk.violation(f"request #{j} {reqs[j]} of a login/query sequence answered {got[j]!r}, the session model says {model[j] if j < len(model) else None!r}; "
@@ -991,9 +1067,9 @@ def run(chk) -> None:
     t0 = time.time()
     _run_a(chk, rnd, thorough)
     t1 = time.time()
-    _run_b(chk, rnd, 1000 if thorough else 150)
+    _run_b(chk, rnd, 1000 if thorough else 110)
     t2 = time.time()
-    _run_c(chk, rnd, 700 if thorough else 90)
+    _run_c(chk, rnd, 700 if thorough else 75)
     chk.extra["wall_parts_s"] = {"A": round(t1 - t0, 1), "B": round(t2 - t1, 1), "C": round(time.time() - t2, 1)}
     chk.exhaustive = True
     chk.extra["exhaustive_part"] = "all 10^6 microsecond fractions per (epoch, tz) combination; all NULL placements of columns of length ≤ 4; the whole types.py table"
